@@ -484,6 +484,7 @@ impl<M: Manager, W: From<Object<M>>> Pool<M, W> {
      * always reports a `max_size` of 0 for closed pools.
      */
     pub fn resize(&self, max_size: usize) {
+        verif_point!("resize.lock");
         let mut slots = self.inner.slots.lock().unwrap();
         // Checked with the lock held: close() holds it throughout.
         if self.inner.semaphore.is_closed() {
@@ -586,6 +587,7 @@ impl<M: Manager, W: From<Object<M>>> Pool<M, W> {
         // The lock is held for the whole operation so that no object can be
         // returned to the pool half way through it and be kept by the closed
         // pool.
+        verif_point!("close.lock");
         let mut slots = self.inner.slots.lock().unwrap();
         self.inner.semaphore.close();
         slots.max_size = 0;
